@@ -95,7 +95,7 @@ func readV4(x *ip.IPv4, v uint32, bits int, class, how string, cs map[string]any
 	if got := x.CIDRMask(); got != pfx.Masked().String() {
 		r.Violation("ip.IPv4.CIDRMask:"+class, fmt.Sprintf("%s: CIDRMask()=%q want %q", how, got, pfx.Masked()), cs)
 	}
-	if *x != before {
+	if !mon.ExportedEqual(*x, before) {
 		r.Violation("ip.IPv4.CIDRMask:receiver-modified", fmt.Sprintf("%s: after String/CIDRMask the object reads %s, it was %s", how, v4fields(x), v4fields(&before)), cs)
 		*x = before
 	}
@@ -103,7 +103,7 @@ func readV4(x *ip.IPv4, v uint32, bits int, class, how string, cs map[string]any
 	if want := v & maskOf(bits); m == nil || m.ToUInt32() != want || int(m.MaskBits) != bits {
 		r.Violation("ip.IPv4.ComputeMask:"+class, fmt.Sprintf("%s: ComputeMask()=%s want %s/%d", how, v4fields(m), dotted(want), bits), cs)
 	}
-	if *x != before {
+	if !mon.ExportedEqual(*x, before) {
 		r.Violation("ip.IPv4.ComputeMask:receiver-modified", fmt.Sprintf("%s: after ComputeMask the object reads %s, it was %s", how, v4fields(x), v4fields(&before)), cs)
 		*x = before
 	}
@@ -129,7 +129,7 @@ func readV4(x *ip.IPv4, v uint32, bits int, class, how string, cs map[string]any
 	if got := rg.Contains(x); !got {
 		r.Violation("ip.IPv4Range.Contains:"+class, fmt.Sprintf("%s: [network, broadcast].Contains = false", how), cs)
 	}
-	if *x != before || *probe != pb || *lo != lob || *hi != hib {
+	if !mon.ExportedEqual(*x, before) || !mon.ExportedEqual(*probe, pb) || !mon.ExportedEqual(*lo, lob) || !mon.ExportedEqual(*hi, hib) {
 		r.Violation("ip.IPv4.IsInSubnet:argument-modified", fmt.Sprintf("%s: a membership/range test changed one of its operands (%s %s %s %s)", how, v4fields(x), v4fields(probe), v4fields(lo), v4fields(hi)), cs)
 		*x = before
 	}
@@ -271,7 +271,7 @@ func v6State() {
 			if !obj.IsInRange(l, h) || !obj.IsInSubnet(obj) || !(&ip.IPv6Range{Start: l, End: h}).Contains(obj) {
 				r.Violation("ip.IPv6.IsInRange:stale-fields", fmt.Sprintf("fields assigned to %s: not inside [%s, %s] / itself", a.addr(), lo.addr(), hi.addr()), cs)
 			}
-			if *obj != before || *l != *lo.lib() || *h != *hi.lib() {
+			if !mon.ExportedEqual(*obj, before) || !mon.ExportedEqual(*l, *lo.lib()) || !mon.ExportedEqual(*h, *hi.lib()) {
 				r.Violation("ip.IPv6.IsInRange:argument-modified", "a range/membership test changed one of its operands", cs)
 			}
 			r.Eval(6)
